@@ -47,6 +47,9 @@ FLAVOURS = {
     # __SSE4_2__ exist only here, and the auto-vectoriser gets the wide instructions
     "native-O3": ("-O3 -march=native -g -DDEBUG=true", "-O2 -g", ""),
     # the other compiler: different inlining, different code for atomics/builtins, different treatment of UB
+    # a compiler that predefines fewer macros than gcc/clang do (MSVC, IAR, tcc know no __BYTE_ORDER__ family): code that
+    # consults such a macro without testing that it exists takes whatever branch "0 == 0" selects
+    "bare-O2": ("-O2 -g -DDEBUG=true -U__BYTE_ORDER__ -U__ORDER_BIG_ENDIAN__ -U__ORDER_LITTLE_ENDIAN__ -U__ORDER_PDP_ENDIAN__ -U__FLOAT_WORD_ORDER__", "-O2 -g", ""),
     "clang-O2": ("-O2 -g -DDEBUG=true", "-O2 -g -Wno-unknown-warning-option -Wno-gnu-zero-variadic-macro-arguments", ""),
     "ubsan-O2": ("-O2 -g -fsanitize=undefined -fno-sanitize=nonnull-attribute -fno-sanitize-recover=all -DDEBUG=true",
                  "-O2 -g -fsanitize=undefined -fno-sanitize=nonnull-attribute -fno-sanitize-recover=all", "-fsanitize=undefined"),
